@@ -251,6 +251,10 @@ def classify(ix, d1, d2):
     return 'unique-violated'
 
 
+SINGLE_STATEMENT_UPDATES = ('update_one', 'update_many', 'replace_one', 'find_one_and_update',
+                            'find_one_and_replace')
+
+
 def update_specs(op):
     k = op[0]
     if k in ('update_one', 'update_many', 'find_one_and_update'):
@@ -260,8 +264,9 @@ def update_specs(op):
     return []
 
 
-def classify_unreadable(st, prev_docs):
-    """which known class (if any) explains a collection that find({}) can no longer read: a
+def classify_refused(st, prev_docs, otherwise):
+    """which known class (if any) explains a collection that find({}) can no longer read, or a
+    document left behind by a refused update: a
     failed update whose path reaches at least two levels into an `_id` that is an embedded
     document holding another document there (the store key shares that inner document with the
     stored one; the update changes it in place before it is refused)"""
@@ -278,7 +283,7 @@ def classify_unreadable(st, prev_docs):
                             isinstance(d, dict) and isinstance(d.get('_id'), dict) and
                             isinstance(d['_id'].get(parts[1]), dict) for d in prev_docs):
                         return 'nested-id-failed-update'
-    return 'observation'
+    return otherwise
 
 
 def has_dollar_key(v):
@@ -325,12 +330,26 @@ def oracle(history, steps):
     fails = []
     for i, st in enumerate(steps):
         docs = st.obs.get('docs') if isinstance(st.obs, dict) else None
+        prev = steps[i - 1].obs.get('docs') if i else []
+        prev = prev if isinstance(prev, list) else []
         if not isinstance(docs, list):
             # a collection that can no longer be read is in no state the rule could hold in
-            prev = steps[i - 1].obs.get('docs') if i else []
-            fails.append((i, classify_unreadable(st, prev if isinstance(prev, list) else []),
+            fails.append((i, classify_refused(st, prev, 'observation'),
                           'find({}) raised %r after %r -> %r' % (docs, st.op, st.out)))
             break
+        # a refused single-statement update / replace leaves no document behind that was not
+        # there before (neither a half-made upsert nor a second copy of the one it worked on)
+        if st.out[0] == 'err' and st.op[0] in SINGLE_STATEMENT_UPDATES:
+            before = collections.Counter(freeze(d.get('_id', MISSING)) for d in prev)
+            after = collections.Counter(freeze(d.get('_id', MISSING)) for d in docs)
+            added = after - before
+            if added:
+                label = classify_refused(st, prev, 'refused-update-added-document')
+                fails.append((i, label, '%r was refused (%r) but left document(s) with _id %r '
+                              'behind: before %r, after %r' % (st.op, st.out, list(added), prev,
+                                                               docs)))
+                if label == 'nested-id-failed-update':
+                    break       # the store is damaged from here on: nothing more to judge
         info = (st.extra or {}).get('probe') or {}
         listed = list(st.obs.get('indexes') or [])
         # creation over duplicates must fail and leave nothing behind
